@@ -149,6 +149,7 @@ static void build_menus() {
 		if ((opt.mf & MF_GUARD_REQ) && (opt.mf & MF_GUARD_CANCEL) && (opt.mf & MF_PAYLOAD)) for (int k_i = 0, k = g_ids[0]; k_i < g_nids; ++k_i, k = g_ids[k_i < g_nids ? k_i : 0]) g.push(Act{A_CANCEL_CHANGEW, static_cast<uint8_t>(k), 0, 2});
 #endif
 		if ((opt.mf & MF_COMPOSITE) && (opt.mf & MF_GUARD_REQ) && (opt.mf & MF_GUARD_CANCEL)) for (int k_i = 0, k = g_ids[0]; k_i < g_nids; ++k_i, k = g_ids[k_i < g_nids ? k_i : 0]) g.push(Act{A_CHANGE_CANCEL, static_cast<uint8_t>(k), 0, 0});
+		if ((opt.mf & MF_COMPOSITE) && (opt.mf & MF_GUARD_CANCEL)) g.push(Act{A_CANCEL2, 0, 0, 0});
 		if ((opt.mf & MF_COMPOSITE) && (opt.mf & MF_GUARD_REQ)) for (int a_i = 0, a = g_ids[0]; a_i < g_nids; ++a_i, a = g_ids[a_i < g_nids ? a_i : 0]) for (int b_i = 0, b = g_ids[0]; b_i < g_nids; ++b_i, b = g_ids[b_i < g_nids ? b_i : 0]) if (a != b) g.push(Act{A_CHANGE2, static_cast<uint8_t>(a), static_cast<uint8_t>(b), 0});
 #if VX_PAYLOAD
 		if ((opt.mf & MF_COMPOSITE) && (opt.mf & MF_GUARD_REQ) && (opt.mf & MF_PAYLOAD)) for (int a_i = 0, a = g_ids[0]; a_i < g_nids; ++a_i, a = g_ids[a_i < g_nids ? a_i : 0]) for (int b_i = 0, b = g_ids[0]; b_i < g_nids; ++b_i, b = g_ids[b_i < g_nids ? b_i : 0]) { g.push(Act{A_CHANGEW_CHANGE, static_cast<uint8_t>(a), static_cast<uint8_t>(b), 1}); g.push(Act{A_CHANGE_CHANGEW, static_cast<uint8_t>(a), static_cast<uint8_t>(b), 2}); }
@@ -564,13 +565,14 @@ static int explore_main() {
 				if (pid < 0) die("fork failed");
 				if (pid == 0) {
 					prctl(PR_SET_PDEATHSIG, SIGKILL);
-					my_worker = w; n_edges = 0; n_validated = 0; n_companion_runs = 0; g_digest = 0; shapes = Set64(); viols.clear(); npreds = 0; memset(viol_count, 0, sizeof viol_count); sample_texts.clear(); g_alloc.hits = 0;
+					my_worker = w; n_edges = 0; n_validated = 0; n_companion_runs = 0; g_digest = 0; shapes = Set64(); neutral_set = Set64(); neutral_sum = 0; viols.clear(); npreds = 0; memset(viol_count, 0, sizeof viol_count); sample_texts.clear(); g_alloc.hits = 0;
 					bool wcap = false;
 					for (size_t k = w; k < level.n; k += W) { if ((k & 63) == static_cast<size_t>(w & 63) && now() - t_start > opt.deadline) { wcap = true; break; } expand(level[k], opt.dev, true, true); }
 					char path[700]; snprintf(path, sizeof path, "%s.s%d", outbase, w);
 					FILE* f = fopen(path, "wb"); if (!f) die("cannot write %s", path);
 					for (size_t i = base; i < store.count; ++i) { fwrite(store.key(i), 1, KEYLEN, f); fwrite(store.snap(i), 1, INST_SIZE, f); fwrite(&parents[i], sizeof(Parent), 1, f); }
 					fclose(f);
+					if (want_neutral) { snprintf(path, sizeof path, "%s.n%d", outbase, w); FILE* nf = fopen(path, "wb"); if (!nf) die("cannot write %s", path); for (size_t i = 0; i < neutral_set.t.n; ++i) if (neutral_set.t[i]) fwrite(&neutral_set.t[i], 8, 1, nf); fclose(nf); }
 					snprintf(path, sizeof path, "%s.w%d", outbase, w);
 					write_worker_results(path);
 					if (wcap) { FILE* g = fopen(path, "a"); fprintf(g, "capped 1\n"); fclose(g); }
@@ -594,6 +596,7 @@ static int explore_main() {
 					f = fopen(path, "rb");
 					if (f) { const size_t rl = KEYLEN + INST_SIZE + sizeof(Parent); while (fread(rec.p, 1, rl, f) == rl) { bool isnew; store.intern(rec.p, rec.p + KEYLEN, &isnew); if (isnew) { Parent p; memcpy(&p, rec.p + KEYLEN + INST_SIZE, sizeof p); if (p.depth > max_depth_seen) max_depth_seen = p.depth; parents.push(p); } } fclose(f); }
 				}
+				if (want_neutral) { snprintf(path, sizeof path, "%s.n%d", outbase, w); FILE* nf = fopen(path, "rb"); if (nf) { uint64_t hv; while (fread(&hv, 8, 1, nf) == 1) if (neutral_set.add(hv)) neutral_sum += hv; fclose(nf); } unlink(path); }
 				snprintf(path, sizeof path, "%s.w%d", outbase, w); unlink(path);
 				snprintf(path, sizeof path, "%s.s%d", outbase, w); unlink(path);
 			}
